@@ -1915,3 +1915,11 @@ func (ev *Evaluator) RunLitUntil(lit *ast.FuncLit, pkg *packages.Package, args [
 	})
 	return
 }
+
+// CallValue calls a function value obtained during evaluation (panics with *EvalError when undecidable; use inside Try).
+func (ev *Evaluator) CallValue(f *FuncVal, args []Value) Value {
+	if f.Fn != nil && f.Lit == nil && f.Decl == nil && f.Native == nil {
+		return ev.callTypesFunc(token.NoPos, f.Fn, f.Recv, args)
+	}
+	return ev.callFuncVal(token.NoPos, f, args)
+}
